@@ -28,17 +28,42 @@ class Table:
     def __repr__(self):
         return "Table(%s)" % self.entry.split("::")[-1]
 
+    def _key(self):
+        return (self.entry, self.n, self.src)
+
+    def __eq__(self, other):
+        return isinstance(other, Table) and self._key() == other._key()
+
+    def __hash__(self):
+        return hash(self._key())
+
 
 LOSSY_ADAPTORS = ("skip", "take", "step_by", "skip_while", "take_while", "filter_map", "nth", "last", "chain", "zip", "flat_map", "dedup", "truncate", "retain", "pop", "remove", "drain", "split_off", "clear")
+
+
+BUILT = {}     # id of a vector built by pushing in a loop -> provenance of the collection the loop runs over (or None)
 
 
 def chain_of(prov):
     """flatten a provenance term: (list of adaptor names from the outside in, root)"""
     ops = []
-    while isinstance(prov, tuple) and len(prov) >= 2 and isinstance(prov[0], str) and prov[0] in ("map", "collect", "iter", "rev", "filter") or \
-            (isinstance(prov, tuple) and len(prov) >= 2 and isinstance(prov[0], str) and prov[0].startswith("lossy:")):
-        ops.append(prov[0])
-        prov = prov[1]
+    for _ in range(24):
+        if isinstance(prov, tuple) and len(prov) == 4 and prov[1] is None and prov[2] is None and not isinstance(prov[0], str):
+            prov = prov[0]          # the whole slice of a vector
+            continue
+        if isinstance(prov, tuple) and len(prov) == 2 and prov[0] == "built":
+            # a vector filled by exactly one push per element of another collection: as complete as that collection
+            src = BUILT.get(prov[1])
+            if src is None:
+                break
+            ops += ["collect", "map"]
+            prov = src
+            continue
+        if isinstance(prov, tuple) and len(prov) >= 2 and isinstance(prov[0], str) and (prov[0] in ("map", "collect", "iter", "rev", "filter") or prov[0].startswith("lossy:")):
+            ops.append(prov[0])
+            prov = prov[1]
+            continue
+        break
     if isinstance(prov, tuple) and len(prov) == 4 and prov[1] is None and prov[2] is None:
         prov = prov[0]    # the whole slice of a vector
     return ops, prov
@@ -356,7 +381,70 @@ class Loader:
             if isinstance(v, Enum):
                 return v.fields[0] if v.variant == models.OK and v.fields else None
             return None
+        def place_elem_type(fr, place, upto):
+            """type of the place prefix that ends just before projection `upto`"""
+            tid = fr.body["locals"][place["l"]]["ty"]
+            for pr in place["p"]:
+                if pr is upto:
+                    break
+                t_ = types[tid]
+                if pr["k"] == "deref":
+                    tid = t_.get("to", tid)
+                elif pr["k"] == "field":
+                    tid = pr.get("ty", tid)
+                elif pr["k"] in ("index", "cindex"):
+                    tid = t_.get("of", tid)
+            return tid
+
+        def opaque_index(st, fr, place, pr, basev, iv):
+            """`slice[i]` as a place on an abstract slice of a vector: the element is the memoised most general value
+            (the same (vector, index function) always designates the same element)"""
+            if not (isinstance(basev, Opaque) and basev.tag == "slice"):
+                return None
+            d = basev.data
+            base = d[0] if isinstance(d, tuple) and len(d) == 4 and d[1] is None and d[2] is None else None
+            if base is None:
+                return None
+            st_t = types[place_elem_type(fr, place, pr)]
+            et = st_t.get("of")
+            if et is None:
+                return None
+            key = (base, iv.bits)
+            if key in self.elem_memo:
+                root, v0 = self.elem_memo[key]
+                if root not in st.mem:
+                    st.mem[root] = v0
+                    st.add_eff(("vec-index", base, iv.bits, v0))
+                return root, ()
+            alts = symgen.alternatives(ip, st, et, "%s[%d]" % (base, len(self.elem_memo)))
+            if len(alts) != 1:
+                return None
+            v, hook = alts[0]
+            if hook:
+                hook(st)
+            root = ("elem", len(self.elem_memo), 0)
+            st.mem[root] = v
+            self.elem_memo[key] = (root, v)
+            st.add_eff(("vec-index", base, iv.bits, v))
+            return root, ()
+        ip.opaque_index = opaque_index
+        def m_vec_new(ip_, st, fr, t, args):
+            rt = types[t["dest"]["ty"]]
+            n = st.count("built")
+            st.add_eff(("vec-new", n))
+            return Opaque("vec", (("built", n), rt["args"][0] if rt.get("args") else None))
+
+        def m_vec_push(ip_, st, fr, t, args):
+            r = args[0]
+            v = val(st, r)
+            if isinstance(v, Opaque) and v.tag == "vec" and isinstance(v.data[0], tuple) and v.data[0] and v.data[0][0] == "built":
+                st.add_eff(("vec-push", v.data[0][1]))
+                return UNIT
+            return None
         M = ip.models
+        M["std::vec::Vec::<T>::new"] = m_vec_new
+        M["std::vec::Vec::<T>::with_capacity"] = m_vec_new
+        M["std::vec::Vec::<T, A>::push"] = m_vec_push
         ip.primitives[self.f.body("elf::read_elf")["key"]] = m_read_elf
         self.ehdr = None
         kh = self.f.find("parse_elf_header32")
@@ -457,7 +545,7 @@ class Loader:
         ip.typed_unknown = typed_unknown
         # models that decline (return None) fall back to the typed unknown
         for name, fn in list(M.items()):
-            if fn in (m_index, m_len, m_string_eq, m_unwrap_or_else, m_nom_parse, m_filter):
+            if fn in (m_index, m_len, m_string_eq, m_unwrap_or_else, m_nom_parse, m_filter, m_vec_push):
                 def wrap(ip_, st, fr, t, args, fn=fn, name=name):
                     r = fn(ip_, st, fr, t, args)
                     if r is None:
@@ -481,11 +569,25 @@ class Loader:
         mem[isamod.CPU_ROOT] = cpu
         self.bus_path = (self.I.fi["bus"],)
         self.header_info = {}
-        assigned = {}
-        for h, blocks in self.loops.items():
+        # every natural loop of elf::load AND of the helper functions it calls is generalised at its header
+        cg = cfgmod.CallGraph(self.f)
+        bodies_with_loops = {self.key: (body, self.loops)}
+        for k in sorted(cg.reachable(self.key)):
+            if k == self.key or k not in self.f.bodies or k in ip.primitives:
+                continue
+            lp = cfgmod.Cfg(self.f.bodies[k]).loops()
+            if lp:
+                bodies_with_loops[k] = (self.f.bodies[k], lp)
+        self.helper_loops = {k: sorted(v[1]) for k, v in bodies_with_loops.items() if k != self.key}
+        ip.hooks_any_depth = True
+
+        def loop_id(bkey, h):
+            return h if bkey == self.key else (bkey.split("::")[-1], h)
+
+        def carried_locals(b, blocks):
             a = set()
             for b_ in blocks:
-                bl = body["blocks"][b_]
+                bl = b["blocks"][b_]
                 for s in bl["st"]:
                     if s["k"] == "assign" and not s["p"]["p"]:
                         a.add(s["p"]["l"])
@@ -495,23 +597,26 @@ class Loader:
                 t = bl["term"]
                 if t["k"] == "call" and not t["dest"]["p"]:
                     a.add(t["dest"]["l"])
-            assigned[h] = a
-        names = {i: l["n"] for i, l in enumerate(body["locals"]) if l["n"]}
+            return a
 
-        def mk_hook(h):
+        def mk_hook(bkey, b, h, assigned_h):
+            names = {i: l["n"] for i, l in enumerate(b["locals"]) if l["n"]}
+            hid = loop_id(bkey, h)
+
             def at_header(ip_, st, fr, n):
                 if n >= 1:
-                    st.add_eff(("loop-back", h, self.snapshot(st, fr, assigned[h], names)))
+                    st.add_eff(("loop-back", hid, self.snapshot(st, fr, assigned_h, names)))
                     return "stop"
-                st.add_eff(("loop-enter", h, self.snapshot(st, fr, assigned[h], names)))
-                for l in assigned[h]:
+                st.add_eff(("loop-enter", hid, self.snapshot(st, fr, assigned_h, names)))
+                for l in assigned_h:
                     root = ("f", fr.fid, l)
                     cur = st.mem.get(root)
                     nm = names.get(l, "l%d" % l)
+                    tagn = "h%s_%s" % (h if bkey == self.key else "%s%d" % (bkey.split("::")[-1][:10], h), nm)
                     if isinstance(cur, Int):
-                        st.mem[root] = Int(bv.seq_bv("h%d_%s" % (h, nm), len(cur.bits)))
+                        st.mem[root] = Int(bv.seq_bv(tagn, len(cur.bits)))
                     elif isinstance(cur, Agg) and len(cur.fields) == 2 and all(isinstance(x, Int) for x in cur.fields):
-                        st.mem[root] = Agg([Int(bv.seq_bv("h%d_%s.start" % (h, nm), len(cur.fields[0].bits))), cur.fields[1]])
+                        st.mem[root] = Agg([Int(bv.seq_bv(tagn + ".start", len(cur.fields[0].bits))), cur.fields[1]])
                 # contents of the stores become arbitrary (they were written by earlier iterations)
                 bus = st.mem[isamod.CPU_ROOT].fields[self.I.fi["bus"]]
                 for sname in self.bm.stores:
@@ -521,14 +626,62 @@ class Loader:
                     arr = st.mem.get(("h", sname))
                     if isinstance(arr, SymArr) and arr.writes:
                         st.mem[("h", sname)] = SymArr(arr.name, arr.n, arr.width, ())
-                st.add_eff(("loop-head", h, self.snapshot(st, fr, assigned[h], names)))
+                st.add_eff(("loop-head", hid, self.snapshot(st, fr, assigned_h, names)))
                 return "continue"
             return at_header
-        for h in self.loops:
-            ip.block_hooks[(self.key, h)] = mk_hook(h)
+        for bkey, (b, lp) in bodies_with_loops.items():
+            for h, blocks in lp.items():
+                ip.block_hooks[(bkey, h)] = mk_hook(bkey, b, h, carried_locals(b, blocks))
         elf_path = strmodel.S(("path",))
         argstr = strmodel.S(args_term)
         outs = ip.run_all(self.key, [elf_path, Ref(isamod.CPU_ROOT, ()), argstr], mem)
+        # vectors filled by a loop: one push per element drawn from one collection, and no push outside that loop
+        BUILT.clear()
+        cand = {}
+        for o in outs:
+            effs = list(o.state.eff)
+            cur_loop = None
+            seg_next = []
+            seg_push = []
+            for e in effs:
+                if e[0] == "loop-head":
+                    cur_loop = e[1]
+                    seg_next, seg_push = [], []
+                elif e[0] == "iter-next" and cur_loop is not None:
+                    seg_next.append(e[1])
+                elif e[0] == "vec-push":
+                    if cur_loop is None:
+                        cand[e[1]] = False
+                    else:
+                        seg_push.append(e[1])
+                elif e[0] == "loop-back" and cur_loop is not None and e[1] == cur_loop:
+                    for n_ in set(seg_push):
+                        okb = seg_push.count(n_) == 1 and len(seg_next) == 1
+                        if cand.get(n_, True) is not False:
+                            if not okb or (n_ in cand and cand[n_] != seg_next[0]):
+                                cand[n_] = False
+                            else:
+                                cand[n_] = seg_next[0]
+                    # an iteration of a loop that draws an element but pushes nothing loses that element
+                    cur_loop = None
+            # iterations (loop-head .. loop-back) that draw from the source without pushing
+        for o in outs:
+            effs = list(o.state.eff)
+            for i_, e in enumerate(effs):
+                if e[0] == "loop-back":
+                    heads = [j for j in range(i_) if effs[j][0] == "loop-head" and effs[j][1] == e[1]]
+                    if not heads:
+                        continue
+                    seg = effs[heads[-1]:i_]
+                    nx = [x[1] for x in seg if x[0] == "iter-next"]
+                    ps = [x[1] for x in seg if x[0] == "vec-push"]
+                    for n_, src in list(cand.items()):
+                        if src is not False and nx and nx[0] == src and len(nx) == 1 and n_ not in ps:
+                            # does this loop also fill n_ on other traces?  then an element was skipped
+                            cand[n_] = False
+        for n_, src in cand.items():
+            if src is not False:
+                BUILT[n_] = src
         return outs
 
     def snapshot(self, st, fr, locals_, names):
